@@ -482,7 +482,7 @@ def run(ctx):
 
     if ctx.quick and ctx.shard == 0:
         return  # shard 0 runs the two regression probes instead (same cost)
-    ctx.run_hypothesis(case_strategy(ctx, m, n, shape), chk, ctx.pick(2, 2), salt="hyp")
+    ctx.run_hypothesis(case_strategy(ctx, m, n, shape), chk, ctx.pick(2, 3), salt="hyp")
 
 
 def replay(ctx, case):
